@@ -60,8 +60,9 @@ META = dict(
     technique='explicit-state BFS over transformation histories on the real Scheduler (each state rebuilt by replay), lock-step '
               'reference model of the call structure, harness-side reading of the written Fortran, gfortran link + run per state',
     level_text='histories of <=2 (quick) / <=3 (thorough) steps from {dependency-suffixing +-module suffix, module wrap, duplicate k '
-               '+-subgraph, remove k} on call DAGs of <=3 procedures x layouts x import styles x call-site declaration styles; '
-               'cache keys, graph items, call structure, reference resolution, probe visits after every step; link+run per state',
+               '+-subgraph, remove k} on call DAGs of <=3 procedures x layouts x import styles x call-site declaration styles (full '
+               'depth on ONLY-imports in 4 layouts, depth 1 elsewhere; see bound.depth_rule); cache keys, graph items, call structure, '
+               'reference resolution, probe visits after every step; link+run per state',
     level_note='runs on the implementation; the reference model predicts structure only, names are read from the written '
                'sources; the Fortran reader is cross-checked against gfortran on every state',
 )
@@ -596,16 +597,32 @@ def signature_of(fc, core):
     return f'{fc} | ' + ' '.join(a)
 
 
+_KNOWN = {}       # verdicts of the states explored by this run: state key -> failure class | None (the state holds)
+
+
+def state_key(case):
+    c = norm_case(case)
+    p = dict(c['p'])
+    p.pop('names', None)
+    return json.dumps([p, c['h']], sort_keys=True)
+
+
 def shrink_one(item):
+    """The search is breadth-first and exhaustive, so most smaller candidates are states this run has already judged:
+    their verdicts are looked up, only candidates outside the explored space are executed."""
     fc, case = item
 
     def still(c):
-        try:
-            got = fails_as(c)
-            return got is not None and family(got) == family(fc)
-        except Exception:   # pylint: disable=broad-except
-            return False
-    core = shrink(norm_case(case), still, smaller, budget=40)
+        k = state_key(c)
+        if k in _KNOWN:
+            got = _KNOWN[k]
+        else:
+            try:
+                got = fails_as(c)
+            except Exception:   # pylint: disable=broad-except
+                return False
+        return got is not None and family(got) == family(fc)
+    core = shrink(norm_case(case), still, smaller, budget=60)
     got = fails_as(core)
     return core, got or fc, _LAST.get('detail') or ''
 
@@ -616,17 +633,29 @@ def attr_key(fc, case):
     return json.dumps([fc, b2.layout_class(p), p['imp'], p.get('decl'), [b2.step_label(s) for s in c['h']]])
 
 
-DEEP_LAYOUTS = dict(quick=('free', 'ownmod', 'shared', 'mixed', 'onemod', 'bundle_mixed'),
-                    thorough=('free', 'ownmod', 'shared', 'mixed'))
+L4 = ('free', 'ownmod', 'shared', 'mixed')
+L6 = L4 + ('onemod', 'bundle_mixed')
+CHAIN, FULL = [[0, 1], [1, 2]], [[0, 1], [0, 2], [1, 2]]
 
 
 def project_sets(names, quick):
-    """(all projects, projects explored to the full depth): every call DAG on <= 3 procedures x layout x import style x
-    declaration style; full depth on ONLY-imports and the layouts of DEEP_LAYOUTS, one step less on the others"""
-    allp = list(b2.enumerate_projects2(3, names=names))
-    deep_layouts = DEEP_LAYOUTS['quick' if quick else 'thorough']
-    deep = [s for s in allp if s['imp'] == 'only' and s['layout'] in deep_layouts]
-    return allp, deep
+    """-> [(project spec, history depth bound)] over the call DAGs on <= 3 procedures x layout x import style x declaration style.
+    SMALL = projects with <= 2 procedures or the chain / complete DAG on 3 procedures;  L4 = layouts free, ownmod, shared, mixed.
+    quick:    depth 2 on SMALL with ONLY-imports in L4; depth 1 on every other SMALL project (all 16 layouts x 3 import styles)
+    thorough: depth 3 on <= 2 procedures with ONLY-imports in L4; depth 2 on every DAG with ONLY-imports in L4;
+              depth 1 on every other project"""
+    out = []
+    for s in b2.enumerate_projects2(3, names=names):
+        small = s['n'] <= 2 or s['edges'] in (CHAIN, FULL)
+        core = s['imp'] == 'only' and s['layout'] in L4
+        if quick:
+            if not small:
+                continue
+            d = 2 if core else 1
+        else:
+            d = 3 if (core and s['n'] <= 2) else (2 if core else 1)
+        out.append((s, d))
+    return out
 
 
 def run(ctx):
@@ -635,12 +664,11 @@ def run(ctx):
     ctx.reset_pool()
     setup_process()
     names = ctx.seed % len(bg.NAME_POOLS)
-    allp, deep = project_sets(names, ctx.quick)
-    deepkeys = {json.dumps(s, sort_keys=True) for s in deep}
-    maxdepth = 2 if ctx.quick else 3
-    # depth bound per project: the full depth on the `deep` set, one less on the remaining layouts / import styles
-    depth_of = lambda s: maxdepth if json.dumps(s, sort_keys=True) in deepkeys else maxdepth - 1
-    frontier = [(s, None, None) for s in allp]          # (project, parent history, successor steps)
+    psets = project_sets(names, ctx.quick)
+    depthmap = {json.dumps(s, sort_keys=True): d for s, d in psets}
+    maxdepth = max(depthmap.values())
+    depth_of = lambda s: depthmap[json.dumps(s, sort_keys=True)]
+    frontier = [(s, None, None) for s, _ in psets]      # (project, parent history, successor steps)
     total = collections.Counter()
     failures, levels, sigs = [], [], set()
     harness = []
@@ -659,6 +687,8 @@ def run(ctx):
                 lv['cpu'] += r.get('cpu', 0.0)
                 for k, v in (r.get('stats') or {}).items():
                     total[k] += v
+                if r['kind'] in ('ok', 'fail'):
+                    _KNOWN[state_key(dict(p=s, h=h))] = r.get('fc') if r['kind'] == 'fail' else None
                 if r['kind'] == 'fail':
                     if r['step'] != len(h):
                         harness.append(f'history {h} of {s} fails at step {r["step"]} although its prefix state passed: {r["fc"]}')
@@ -673,6 +703,9 @@ def run(ctx):
         levels.append(dict(depth=level, states=lv['states'], ok=lv['ok'], violating=lv['fail'], refusals=lv['refusal'],
                            initial_state_inconsistent=lv['initial'], wall_s=round(ctx.elapsed() - t0, 1), cpu_s=round(lv['cpu'], 1)))
         frontier = nxt
+        if os.environ.get('VERIF_PROGRESS'):
+            import sys
+            print(f'[C25] level {level}: {levels[-1]}', file=sys.stderr, flush=True)
     ctx.require(not harness, f'harness inconsistency ({len(harness)}): {harness[:2]}')
     ctx.require(total['states'] >= 500 and total['renamed'] >= 50 and total['copies'] >= 50 and total['removed'] >= 50,
                 f'vacuous: {total["states"]} states, renamed={total["renamed"]} copies={total["copies"]} removed={total["removed"]}')
@@ -684,6 +717,7 @@ def run(ctx):
         lst.sort(key=lambda x: (len(x[1]['h']), x[1]['p']['n'], len(x[1]['p']['edges']), bg.LAYOUTS.index(x[1]['p']['layout']),
                                 json.dumps(norm_case(x[1]), sort_keys=True)))
         reps.append((lst[0][0], lst[0][1]))
+    ctx.reset_pool()          # the shrink workers must see the verdict table
     cores = ctx.pmap(shrink_one, reps, chunksize=1) if reps else []
     first, rest = {}, []
     for (ak, lst), (core_case, core_fc, core_det) in zip(sorted(buckets.items()), cores):
@@ -700,10 +734,10 @@ def run(ctx):
              'probe pass and a file write and judged; transitions = transformation applications; traces_validated = states whose '
              'output program was linked and run by gfortran (build results are memoised on the program text); distinct_nontrivial = '
              'distinct (output program, printed output) of passing states; violating states are not expanded',
-        bound=dict(levels=levels, max_depth=maxdepth, projects_full_depth=len(deep), projects_depth_minus_one=len(allp) - len(deep),
-                   full_depth_layouts=list(DEEP_LAYOUTS['quick' if ctx.quick else 'thorough']), alphabet_n3=alphabet(3),
-                   nmax=3, decls=list(b2.DECLS), name_pool=names),
-        samples=[dict(project=deep[-1], history=[['dup', 1, True], ['dep', '_mod']])],
+        bound=dict(levels=levels, max_depth=maxdepth,
+                   projects_by_depth_bound={str(d): sum(1 for _, dd in psets if dd == d) for d in sorted(set(depthmap.values()))},
+                   depth_rule=project_sets.__doc__, alphabet_n3=alphabet(3), nmax=3, decls=list(b2.DECLS), name_pool=names),
+        samples=[dict(project=[s for s, d in psets if d == maxdepth][-1], history=[['dup', 1, True], ['dep', '_mod']])],
         gfortran_builds=total['gfortran_builds'], gfortran_memoised=total['gfortran_cached'], refusals=total['refusal'],
         states_with_renames=total['renamed'], states_with_copies=total['copies'], states_with_removed_units=total['removed'],
         failure_buckets=len(buckets), cpu_s=round(total['cpu'], 1),
